@@ -18,7 +18,7 @@ pub fn def() -> CheckDef {
         },
         gen,
         run,
-        rule: "seeded histories (<= 30 ops) in which about half of the path arguments are near-misses: missing parent, wrong type both ways, existing name, non-empty storage, root removal, paths escaping the root, invalid names, out-of-range seeks, set_storage_clsid on a stream, setters on a missing path - at every point of a history, also while handles hold unflushed data. For every call refused with NotFound / AlreadyExists / InvalidInput: the image hash is unchanged (write calls made during a refused call are counted as a probe, not judged - the property speaks of the bytes), and the rest of the history still agrees with the model. One case in 16 starts from a file laid out by the independent writer whose directory entries carry legal bytes the library never writes itself (arbitrary units behind each name's terminator; in V3 arbitrary high halves of the stream size fields), with 50-80 % near-miss arguments and tripled weights for the metadata setters. Every tenth case is a stale-handle scenario (src/stale.rs): a single call through a handle whose stream was removed that is refused (NotFound / InvalidInput) must leave the bytes, the handle's len() and its position as they were. Non-trivial: >= 1 refused call checked and >= 1 successful mutation; distinct = distinct (seam log, final image) hash.",
+        rule: "seeded histories (<= 30 ops) in which about half of the path arguments are near-misses: missing parent, wrong type both ways, existing name, non-empty storage, root removal, paths escaping the root, invalid names, out-of-range seeks, set_storage_clsid on a stream, setters on a missing path - at every point of a history, also while handles hold unflushed data. For every call refused with NotFound / AlreadyExists / InvalidInput: the image hash is unchanged (write calls made during a refused call are counted as a probe, not judged - the property speaks of the bytes), and the rest of the history still agrees with the model. One case in 16 starts from a file laid out by the independent writer whose directory entries carry legal bytes the library never writes itself (arbitrary units behind each name's terminator; in V3 arbitrary high halves of the stream size fields), with 50-80 % near-miss arguments and tripled weights for the metadata setters. Every tenth case is a stale-handle scenario (src/stale.rs): a single call through a handle whose stream was removed that is refused (NotFound / InvalidInput) must leave the bytes, the handle's len() and its position as they were, and the same call made again must be refused in the same way. Non-trivial: >= 1 refused call checked and >= 1 successful mutation; distinct = distinct (seam log, final image) hash.",
         assumptions: &["reference model as C01 decides which calls must be refused"],
         cpu_limit_s: 300,
         fault_kinds: "none (seam-level write counter is the oracle)",
